@@ -165,8 +165,17 @@ package xpath
 //@   modifies nothing
 //@   ensures[nonnil@C15] result != nil
 //@   requires[nonnil-args@C15] arg != nil
+// count(): the number of nodes of the argument's stream that pass the step's node test (all of them
+// for a step, whose stream only holds nodes that passed it).
+//@ instance scntZero(f, q, e) = scnt(f, q, e, 0) == 0
+//@ instance scntStep(f, q, e, i) = i >= 1 ==> scnt(f, q, e, i) == scnt(f, q, e, i - 1) + ite(testv(f, spos(q, e, i - 1)), 1, 0)
 //@ func countFunc$1
 //@   props C15 C04 C05 C13 C08
+//@   mode int
+//@   ensures[counts-the-stream@C08] bound(typ, 0) ==> k(ver(typ, 0)) == slen(ref(ver(typ, 0)), epoch(ver(typ, 0))) && count == scnt(ref(test), ref(ver(typ, 0)), epoch(ver(typ, 0)), k(ver(typ, 0)))
+//@   loop 0 apply scntZero(ref(test), ref(typ), epoch(typ))
+//@   loop 0 apply scntStep(ref(test), ref(typ), epoch(typ), k(typ))
+//@   loop 0 invariant[counting@C08] 0 <= count && 0 <= k(typ) && k(typ) <= slen(ref(typ), epoch(typ)) && ite(node != nil, k(typ) >= 1 && count <= k(typ) - 1 && pos(node) == spos(ref(typ), epoch(typ), k(typ) - 1) && count == scnt(ref(test), ref(typ), epoch(typ), k(typ) - 1), count <= k(typ) && count == scnt(ref(test), ref(typ), epoch(typ), k(typ)) && k(typ) == slen(ref(typ), epoch(typ)))
 //@   theory stream for C04 C05 C14 C13 C08
 //@   ensures[pure-arg@C04,C05] stateless(arg) || k(arg) == old(k(arg)) && epoch(arg) == old(epoch(arg))
 //@   conforms functionQuery.Func
